@@ -56,7 +56,8 @@ def gen(rng, broker, tier):
                 "knobs": {"step_cost": rng.choice([0, 0, 1, "rand"]), "net": net,
                           "redis_window": rng.choice([10, 10, 2, 3])}}
     nw = rng.randint(2, 3)
-    jobs = [{"id": f"j{i}", "name": "a0", "queue": "q0", "prio": rng.choice([5, 5, 0, 9]), "timeout_s": rng.choice([1, 2, 600]),
+    jobs = [{"id": f"j{i}", "name": "a0", "queue": "q0", "prio": rng.choice([5, 5, 0, 9]),
+             "timeout_s": rng.choice([1, 2, 600, 86_400, 90_000]),
              "at_us": rng.choice([0, 0, rng.randint(0, 300_000)]),
              "beh": [{"do": "return", "dur_us": rng.choice([0, 1000, 30_000, 200_000])}]}
             for i in range(rng.randint(1, 25 if broker == "mem" else 14))]
@@ -64,6 +65,7 @@ def gen(rng, broker, tier):
     if broker == "redis" and rng.random() < 0.4:
         kill = {"node": "w0", "at_us": rng.randint(1000, 400_000)}
     return {"mode": "workers", "nworkers": nw, "jobs": jobs, "consumers": [], "tasks_limit": rng.choice([1, 2, 5, 1000]),
+            "bystanders": [rng.randint(20_000, 600_000) for _ in range(rng.choice([0, 1, 3]))] if broker != "mem" else [],
             "kill": kill,
             "knobs": {"step_cost": rng.choice([0, 0, 1, "rand"]), "net": net, "redis_window": rng.choice([10, 10, 2, 3])}}
 
@@ -302,6 +304,18 @@ async def _main_workers(sim, sc, out):
     for n in wn:
         w = r.Worker(routers=[router], tasks_limit=sc["tasks_limit"], graceful_shutdown_time=5.0, _connection=world.conn(n))
         workers.append((n, sim.loop.spawn(n, w.run())))
+    async def bystander(i, at_us):
+        # some other process connects and disconnects while jobs are running: its maintenance must not touch messages which
+        # are still within their execution timeout
+        await asyncio.sleep(at_us / 1e6)
+        c_ = world.new_node(f"by{i}")
+        await c_.connect()
+        sim.count("bystander-maintenance")
+        await asyncio.sleep(0.01)
+        await c_.disconnect()
+
+    for i_, at_ in enumerate(sc.get("bystanders", [])):
+        sim.loop.spawn("p", bystander(i_, at_))
     kill = sc.get("kill")
     held_by_dead: set = set()
     if kill:
